@@ -297,7 +297,14 @@ val hEADER_SIZE : z
 
 val hEADER_ALIGN : z
 
+type eptr =
+| PNull
+| PDangling
+| PWild0
+| PElt of nat * z * z
+
 type val0 =
+| VPtr of eptr
 | VInt of z
 | VBool of bool
 | VUnit
@@ -320,6 +327,10 @@ val is_pow2 : z -> bool
 
 val layout_ok : z -> z -> bool
 
+type ('f, 'w) ans = ('f, val0) outcome * 'w
+
+type ('f, 'w) kV = val0 -> 'w -> ('f, 'w) ans
+
 type env = (string * val0) list
 
 val lookup : string -> env -> val0 option
@@ -338,9 +349,7 @@ val bind_names : string list -> val0 -> env option
 
 val restore : env -> env -> env
 
-type ('f, 'w) ans = ('f, val0) outcome * 'w
-
-val reout : ('a1, 'a2) outcome -> ('a1, 'a3) outcome
+val kont : ('a1, val0) outcome -> 'a2 -> ('a1, 'a2) kV -> ('a1, 'a2) ans
 
 val assigns : stmt list -> bool
 
@@ -348,12 +357,17 @@ val block_assigns : block -> bool
 
 val exec_block :
   tcfg -> (string -> fn_ast option) -> (string -> val0 list -> 'a2 -> ('a1,
-  val0) outcome * 'a2) -> nat -> block -> env -> 'a2 -> (val0 -> env -> 'a2
-  -> ('a1, 'a2) ans) -> ('a1, 'a2) ans
+  'a2) kV -> ('a1, 'a2) ans) -> nat -> block -> env -> 'a2 -> ('a1, 'a2) kV
+  -> (val0 -> env -> 'a2 -> ('a1, 'a2) ans) -> ('a1, 'a2) ans
 
 val eval_fn :
   tcfg -> (string -> fn_ast option) -> (string -> val0 list -> 'a2 -> ('a1,
-  val0) outcome * 'a2) -> nat -> fn_ast -> val0 list -> 'a2 -> ('a1, val0)
+  'a2) kV -> ('a1, 'a2) ans) -> nat -> fn_ast -> val0 list -> 'a2 -> ('a1,
+  'a2) ans
+
+val direct :
+  (string -> val0 list -> 'a2 -> ('a1, val0) outcome * 'a2) -> string -> val0
+  list -> 'a2 -> (val0 -> 'a2 -> ('a1, val0) outcome * 'a2) -> ('a1, val0)
   outcome * 'a2
 
 val bindo : 'a1 option -> ('a1 -> 'a2 option) -> 'a2 option
@@ -384,12 +398,6 @@ type block0 = { b_size : z; b_align : z; h_len : z; h_cap : z; h_align :
 type handle =
 | Sentinel
 | At of nat * z
-
-type eptr =
-| PNull
-| PDangling
-| PWild0
-| PElt of nat * z * z
 
 type status =
 | Fresh
@@ -552,6 +560,8 @@ val capacity : nat -> z m
 val alignment : tcfg -> nat -> z m
 
 val set_len : nat -> z -> unit m
+
+val add_len : nat -> z -> unit m
 
 val data : tcfg -> nat -> eptr m
 
